@@ -119,6 +119,45 @@ def dump(repo):
         }}
     group('regexes', {'regexes': {}}, g_regexes)
 
+    # regular expressions as *tables* (pattern strings and flags), one group per component, each
+    # tied to the literal the hand-written Lean matcher was translated from (Tie/Regex*.lean).
+    # A changed pattern breaks the tie, and with it every property whose model matches with it,
+    # whether or not the change is behaviour-preserving (the escalated search then decides).
+    def g_re_reader():
+        from pydiffx.reader import DiffXReader
+        return {'re_reader': [
+            ['header', DiffXReader._HEADER_RE.pattern.decode('latin1'), int(DiffXReader._HEADER_RE.flags)],
+            ['option_key', DiffXReader._HEADER_OPTION_KEY_RE.pattern.decode('latin1'), int(DiffXReader._HEADER_OPTION_KEY_RE.flags)],
+            ['option_value', DiffXReader._HEADER_OPTION_VALUE_RE.pattern.decode('latin1'), int(DiffXReader._HEADER_OPTION_VALUE_RE.flags)],
+        ]}
+    group('re_reader', {'re_reader': []}, g_re_reader)
+
+    def g_re_writer():
+        from pydiffx.writer import DiffXWriter
+        r = DiffXWriter._OPTION_VALUE_RE
+        return {'re_writer': [['option_value', r.pattern if isinstance(r.pattern, str) else r.pattern.decode('latin1'), int(r.flags)]]}
+    group('re_writer', {'re_writer': []}, g_re_writer)
+
+    def g_re_hunks():
+        from pydiffx.utils import unified_diffs
+        r = unified_diffs.UNIFIED_DIFF_HUNK_HEADER_RE
+        return {'re_hunks': [['hunk_header', r.pattern.decode('latin1'), int(r.flags)]]}
+    group('re_hunks', {'re_hunks': []}, g_re_hunks)
+
+    def g_re_lexer():
+        from pydiffx.integrations.pygments_lexer import DiffXLexer
+        out = []
+        for state in sorted(DiffXLexer.tokens):
+            for i, rule in enumerate(DiffXLexer.tokens[state]):
+                if isinstance(rule, tuple):
+                    pat = rule[0] if isinstance(rule[0], str) else repr(rule[0])
+                    out.append(['%s.%d' % (state, i), pat, len(rule)])
+                else:
+                    out.append(['%s.%d' % (state, i), 'include:%s' % str(rule), 0])
+        out.append(['flags', '', int(DiffXLexer.flags)])
+        return {'re_lexer': out}
+    group('re_lexer', {'re_lexer': []}, g_re_lexer)
+
     # DOM class table (projection that matters semantically)
     group('dom', {'dom': {'classes': {}, 'remapped': []}}, lambda: {'dom': dump_dom()})
 
@@ -236,6 +275,29 @@ def lean_text(s):
     return '[' + ', '.join(str(ord(c)) for c in s) + ']'
 
 
+def lean_str(x):
+    """a Lean string literal (only ASCII is emitted verbatim)"""
+    out = ['"']
+    for ch in x:
+        o = ord(ch)
+        if ch == '\\':
+            out.append('\\\\')
+        elif ch == '"':
+            out.append('\\"')
+        elif ch == '\n':
+            out.append('\\n')
+        elif ch == '\r':
+            out.append('\\r')
+        elif ch == '\t':
+            out.append('\\t')
+        elif 32 <= o < 127:
+            out.append(ch)
+        else:
+            out.append('\\u{%x}' % o)
+    out.append('"')
+    return ''.join(out)
+
+
 def render(t):
     o = []
     w = o.append
@@ -272,6 +334,10 @@ def render(t):
     w('def newlineFormats : List (Text × Text) := [%s]' % ', '.join(
         '(%s, %s)' % (lean_text(k), lean_text(v)) for k, v in t['newline_formats']))
     w('def noNewlineMarker : Bytes := %s' % lean_bytes_of_hex(t['no_newline_marker']))
+    for name, key in (('regexReader', 're_reader'), ('regexWriter', 're_writer'), ('regexHunks', 're_hunks'),
+                      ('regexLexer', 're_lexer')):
+        w('def %s : List (String × String × Nat) := [%s]' % (name, ', '.join(
+            '(%s, %s, %d)' % (json.dumps(a), lean_str(b), c) for a, b, c in t.get(key, []))))
     w('/-- whether the default block size could be reflected from `DiffXReader._read_until` -/')
     w('def chunkKnown : Bool := %s' % ('true' if t.get('chunk_known') else 'false'))
     w('def config : Config :=')
